@@ -120,6 +120,17 @@ Section Repeats.
       rewrite Hk, fkey_eqb_atom_eqb, atom_eqb_refl in H2. simpl in H2. apply atom_eqb_eq. exact H2.
   Qed.
 
+  Lemma safe_repeats_intro sp : Forall canonical (sp_fluents sp) -> kappa_inj (map fst (sp_fluents sp)) ->
+    safe_repeats sp = true.
+  Proof.
+    intros Hcan Hinj. unfold safe_repeats. apply andb_true_iff. split.
+    - apply forallb_forall. intros fl Hin. rewrite Forall_forall in Hcan. apply strs_eqb_eq. exact (Hcan fl Hin).
+    - apply forallb_forall. intros fa Ha. apply forallb_forall. intros fb Hb.
+      destruct (fkey_eqb (kappa (fst fa)) (kappa (fst fb))) eqn:E; [|reflexivity]. simpl.
+      rewrite fkey_eqb_atom_eqb in E. apply atom_eqb_eq in E. apply atom_eqb_eq.
+      apply Hinj; [apply in_map; exact Ha | apply in_map; exact Hb | exact E].
+  Qed.
+
   (* a problem without repeated fluent arguments is safe *)
   Lemma canon_nodup args : NoDup args -> canon args = args.
   Proof.
